@@ -73,6 +73,8 @@ structure St where
   pool : Option PoolTrack.Pool := some PoolTrack.init
   maxSlot : Nat := 0
   blocks : List (Nat × Nat) := []
+  /-- slots whose waiter's receiver was dropped by the harness (`pwd`): their wake-up is unobservable -/
+  dropped : List Nat := []
 
 def note (st : St) (bs : List (Nat × Nat)) : St :=
   { st with
@@ -90,7 +92,10 @@ def finStep (st : St) (op : Finality.Op) : St × List String :=
 def prRes (st : St) (r : ParentReady.Res) : St × List String :=
   match r with
   | none => ({ st with pr := none }, ["panic"])
-  | some (t1, ann, wk) => ({ st with pr := some t1 }, [s!"A={fmtAnn ann} W={fmtAnn (sortWakes wk)} {fmtPr t1 st.maxSlot}"])
+  | some (t1, ann, wk) =>
+    let seen := wk.filter (fun w => !st.dropped.contains w.1)
+    ({ st with pr := some t1, dropped := st.dropped.filter (fun s => !(wk.any (·.1 == s))) },
+      [s!"A={fmtAnn ann} W={fmtAnn (sortWakes seen)} {fmtPr t1 st.maxSlot}"])
 
 def parseBlk (s : String) : Option (Nat × Nat) :=
   match s.splitOn ":" with
@@ -151,6 +156,15 @@ def step (st : St) (ws : List String) : St × List String :=
       | .panic => ({ st with pr := none }, ["panic"])
       | .ready t1 b => ({ st with pr := some t1 }, [s!"ready {fmtBlk b} {fmtPr t1 st.maxSlot}"])
       | .waiting t1 => ({ st with pr := some t1 }, [s!"waiting {fmtPr t1 st.maxSlot}"])
+  | ["pwd", s] =>
+    let st := { st with maxSlot := max st.maxSlot (nat! s) }
+    match st.pr with
+    | none => (st, ["dead"])
+    | some t =>
+      match ParentReady.waitForParentReady t (nat! s) with
+      | .panic => ({ st with pr := none }, ["panic"])
+      | .ready t1 b => ({ st with pr := some t1 }, [s!"ready {fmtBlk b} {fmtPr t1 st.maxSlot}"])
+      | .waiting t1 => ({ st with pr := some t1, dropped := (nat! s) :: st.dropped }, [s!"waiting {fmtPr t1 st.maxSlot}"])
   | ["cc", k, s, h] =>
     let st := note st [(nat! s, nat! h)]
     match st.pool, parseKind k with
